@@ -28,7 +28,9 @@ theorem detect_events_eq (nc : Nat) (iout : List Nat) (hidx : ∀ v ∈ iout, v 
   | none =>
     have : iout = [] := List.getLast?_eq_none_iff.mp h
     subst this
-    simp
+    first
+      | (simp; done)
+      | (simp only [List.length_nil]; split <;> first | rfl | (exfalso; omega))
   | some l =>
     have hl := hlast l h
     have hmem : l ∈ iout := List.mem_of_getLast? h
